@@ -170,11 +170,14 @@ pub fn main(args: &[String]) -> i32 {
 	let mut out = Out::new(&args[2]);
 	let root = std::path::PathBuf::from(&args[2]);
 	let dir = root.join("db");
-	let mut rng = Rng::new(seed ^ 0xC15);
 	let mut oracle = String::new();
 	let mut dist: BTreeMap<String, u64> = BTreeMap::new();
 	let mut nontrivial = 0u64;
-	for _ in 0..count {
+	for case_no in 0..count {
+		let mut rng = crate::util::case_rng(seed ^ 0xC15, case_no);
+		if crate::util::skip_case(case_no) {
+			continue
+		}
 		let _ = std::fs::remove_dir_all(&dir);
 		let sseed = rng.next();
 		let sc = scenario(sseed);
